@@ -148,6 +148,25 @@ func (w *World) errValueConsumed(e, root ssa.Value, opts errOpts, seen map[ssa.V
 					}
 				}
 			}
+			// the same through a capture: a function literal assigns the enclosing
+			// function's named error result, which that function returns
+			if fv, ok := x.Addr.(*ssa.FreeVar); ok && x.Val == e {
+				if al := capturedCell(fv); al != nil {
+					for _, r2 := range *al.Referrers() {
+						if ld, ok := r2.(*ssa.UnOp); ok && ld.Op == token.MUL {
+							for _, r3 := range *ld.Referrers() {
+								if ret, ok := r3.(*ssa.Return); ok {
+									for _, res := range ret.Results {
+										if res == ssa.Value(ld) && isErrorType(res.Type()) {
+											return true, "assigned to the enclosing function's named error result (captured), which it returns at " + w.instrPos(ret)
+										}
+									}
+								}
+							}
+						}
+					}
+				}
+			}
 		case *ssa.BinOp:
 			if x.Op != token.NEQ && x.Op != token.EQL {
 				continue
@@ -634,4 +653,38 @@ func textualEOFTest(cond ssa.Value, e ssa.Value, phiRes map[*ssa.Phi]ssa.Value) 
 		}
 	}
 	return false
+}
+
+// capturedCell: the local cell of the enclosing function a free variable is bound to
+// (through nested literals), or nil.
+func capturedCell(fv *ssa.FreeVar) *ssa.Alloc {
+	fn := fv.Parent()
+	for depth := 0; depth < 4 && fn != nil && fn.Parent() != nil; depth++ {
+		idx := -1
+		for i, f := range fn.FreeVars {
+			if f == fv {
+				idx = i
+			}
+		}
+		if idx < 0 {
+			return nil
+		}
+		var bound ssa.Value
+		for _, b := range fn.Parent().Blocks {
+			for _, in := range b.Instrs {
+				if mc, ok := in.(*ssa.MakeClosure); ok && mc.Fn == ssa.Value(fn) && idx < len(mc.Bindings) {
+					bound = mc.Bindings[idx]
+				}
+			}
+		}
+		switch t := bound.(type) {
+		case *ssa.Alloc:
+			return t
+		case *ssa.FreeVar:
+			fv, fn = t, fn.Parent()
+		default:
+			return nil
+		}
+	}
+	return nil
 }
